@@ -399,6 +399,44 @@ func ruleDerRaw(c *Ctx, r *Rep) {
 			}
 		}
 	}
+	// the general-name kinds (string and array types with a marshal method): what marshal hands back is the encoder's
+	// output, not a tag and a length byte written by hand (a length of 128 and more needs the long form)
+	if gn := c.NamedType("generator/cert", "GeneralName"); gn != nil {
+		if iface, ok := gn.Underlying().(*types.Interface); ok {
+			for _, t := range c.implementations(iface) {
+				nt, ok := t.(*types.Named)
+				if !ok {
+					continue
+				}
+				if _, isStruct := nt.Underlying().(*types.Struct); isStruct {
+					continue
+				}
+				m := c.methodOf(nt, "marshal")
+				if m == nil || m.Blocks == nil {
+					continue
+				}
+				k := 0
+				for _, ret := range returnsOf(m) {
+					res := retResults(ret)
+					if len(res) != 2 {
+						continue
+					}
+					if kc, isK := res[0].(*ssa.Const); isK && kc.Value == nil {
+						continue
+					}
+					k++
+					o := pv.Origins(res[0])
+					okAll := len(o) > 0
+					for _, x := range o {
+						if !(strings.HasPrefix(x, "encoding/asn1.Marshal(") || strings.HasPrefix(x, "encoding/asn1.MarshalWithParams(")) {
+							okAll = false
+						}
+					}
+					r.Check(okAll, sprintf("name-bytes-encoded|%s#%d", nt.Obj().Name(), k), c.Pos(ret.Pos()), "the bytes of a general name are the output of asn1.Marshal", strings.Join(head(o, 2), " , "))
+				}
+			}
+		}
+	}
 }
 
 func init() {
